@@ -1,4 +1,5 @@
 import DdsProofs.EnvSound
+import DdsProofs.EvalLemmas
 /-!
 # Memoised evaluation returns what plain execution returns (`memo_correct`)
 
@@ -730,5 +731,552 @@ theorem pframe (m : Nat) (W : World) (paths : List (String × Sg)) : ∀ fuel, P
     rw [plainFn_succ_snd]
     exact plainItems_frame (pframe m W paths k) fn _ stack env fn.items _ sv [] { q with log := q.log ++ [fn.name] }
       a.hvisit hok (fun f hf => absurd hf (by simp))
+
+/-! ## Simulation: running under dds against a sound store = plain execution -/
+
+theorem loadsOK_iff (Ω : Blobs) (k : LoadEnv) (f : FIS) :
+    FIS.loadsOK Ω k f ↔ (∀ ps ∈ f.loads, ∃ v, sgGet Ω ps.2 = some v ∧ aget k ps.1 = some v) ∧ FIS.loadsOKL Ω k f.subs := by
+  obtain ⟨n, s, p, subs, l⟩ := f
+  simp only [FIS.loadsOK, FIS.loads, FIS.subs]
+
+theorem loadsOK_withPath (Ω : Blobs) (k : LoadEnv) (f : FIS) (p : String) :
+    FIS.loadsOK Ω k (f.withPath p) ↔ FIS.loadsOK Ω k f := by
+  rw [loadsOK_iff, loadsOK_iff]; rfl
+
+theorem loadsOKL_mem {Ω : Blobs} {k : LoadEnv} : ∀ {fs : List FIS} {f : FIS}, FIS.loadsOKL Ω k fs → f ∈ fs → FIS.loadsOK Ω k f
+  | g :: gs, f, h, hm => by
+    simp only [FIS.loadsOKL] at h
+    rcases mem_cons.mp hm with e | e
+    · subst e; exact h.1
+    · exact loadsOKL_mem h.2 e
+
+theorem loadsOKL_prefix {Ω : Blobs} {k : LoadEnv} : ∀ (a b : List FIS), FIS.loadsOKL Ω k (a ++ b) → FIS.loadsOKL Ω k a
+  | [], _, _ => trivial
+  | x :: a, b, h => by
+    simp only [cons_append, FIS.loadsOKL] at h ⊢
+    exact ⟨h.1, loadsOKL_prefix a b h.2⟩
+
+mutual
+theorem loadsOK_transfer {Ω : Blobs} {k1 k2 : LoadEnv} : ∀ (f : FIS), (∀ p ∈ f.allLoads, aget k2 p = aget k1 p) →
+    FIS.loadsOK Ω k1 f → FIS.loadsOK Ω k2 f
+  | .mk _ _ _ subs loads, he, h => by
+    simp only [FIS.loadsOK] at h ⊢
+    simp only [FIS.allLoads, mem_append] at he
+    refine ⟨fun ps hps => ?_, loadsOKL_transfer subs (fun p hp => he p (Or.inr hp)) h.2⟩
+    obtain ⟨v, h1, h2⟩ := h.1 ps hps
+    exact ⟨v, h1, by rw [he ps.1 (Or.inl (mem_map.mpr ⟨ps, hps, rfl⟩))]; exact h2⟩
+theorem loadsOKL_transfer {Ω : Blobs} {k1 k2 : LoadEnv} : ∀ (fs : List FIS), (∀ p ∈ FIS.allLoadsL fs, aget k2 p = aget k1 p) →
+    FIS.loadsOKL Ω k1 fs → FIS.loadsOKL Ω k2 fs
+  | [], _, _ => trivial
+  | f :: fs, he, h => by
+    simp only [FIS.loadsOKL] at h ⊢
+    simp only [FIS.allLoadsL, mem_append] at he
+    exact ⟨loadsOK_transfer f (fun p hp => he p (Or.inl hp)) h.1, loadsOKL_transfer fs (fun p hp => he p (Or.inr hp)) h.2⟩
+end
+
+theorem lookupRefs_mem {refs : Refs} : ∀ {ps : List String} {d : List (String × Sg)}, lookupRefs refs ps = .ok d →
+    ∀ p ∈ ps, ∃ s, aget refs p = some s ∧ (p, s) ∈ d
+  | [], _, _, p, hp => by cases hp
+  | q :: qs, d, h, p, hp => by
+    unfold lookupRefs at h
+    cases hg : aget refs q with
+    | none => simp [hg] at h
+    | some s =>
+      simp only [hg] at h
+      obtain ⟨r, hr, h⟩ := bind_ok h
+      simp only [pure, Except.pure, Except.ok.injEq] at h
+      subst h
+      rcases mem_cons.mp hp with rfl | hp
+      · exact ⟨s, hg, mem_cons_self⟩
+      · obtain ⟨s', h1, h2⟩ := lookupRefs_mem hr p hp
+        exact ⟨s', h1, mem_cons_of_mem _ h2⟩
+
+/-- storing under a key whose blob, if any, is that very value keeps every blob -/
+theorem extends_storeBlob' (S : PStore) (k : Sg) (v : RVal) (hsame : ∀ w, sgGet S.blobs k = some w → w = v) :
+    Extends S (S.storeBlob k v) := by
+  intro k' v' h
+  unfold PStore.storeBlob
+  by_cases hn : S.noop = true
+  · simp only [hn, if_true]; exact h
+  · simp only [hn, Bool.false_eq_true, if_false]
+    by_cases hk : k' = k
+    · subst hk; rw [hsame v' h]; simp [sgGet]
+    · have : sgGet ((k, v) :: S.blobs.filter (fun kv => kv.1 ≠ k)) k' = sgGet (S.blobs.filter (fun kv => kv.1 ≠ k)) k' := by
+        simp [sgGet, Ne.symm hk]
+      rw [this, sgGet_filter_ne _ _ _ hk]; exact h
+
+theorem Sound.storeBlob' {U : Universe} {m x : Nat} {S : PStore} (hS : Sound U m x S)
+    {W : World} {fn : Fn} {ctx : ArgCtx} {env : Env} {fuel : Nat} {refs : Refs} {stack : List String}
+    {fis : FIS} {r : Refs} {p : PSt} {v : RVal}
+    (hW : U.world W) (hx : W.extVersion = x) (hU : U.fns fn) (hc : Chain U m S.blobs W fn ctx env)
+    (ha : analyse m W fuel refs stack fn ctx = .ok (fis, r)) (hl : FIS.loadsOK S.blobs p.kept fis)
+    (hv : (plainFn W fuel p fn env).1 = .ok v) :
+    Sound U m x (S.storeBlob fis.retSig v) ∧ Extends S (S.storeBlob fis.retSig v) := by
+  have hsame : ∀ w, sgGet S.blobs fis.retSig = some w → w = v := by
+    intro w hw
+    have := served_right hS hW hx hU hc ha hw p hl
+    rw [hv] at this
+    exact (Except.ok.inj this).symm
+  have he := extends_storeBlob' S fis.retSig v hsame
+  refine ⟨?_, he⟩
+  intro k' v' h
+  rcases sgGet_storeBlob S _ _ _ _ h with ⟨rfl, rfl⟩ | h'
+  · exact ⟨W, fn, ctx, env, fuel, refs, stack, fis, r, p, hW, hx, hU, hc.mono he, ha, rfl, loadsOK_mono he fis hl, hv⟩
+  · exact hS.witness_mono he h'
+
+/-- what is fixed during one evaluation -/
+structure EvalCtx (U : Universe) (x : Nat) (W : World) : Prop where
+  hW : U.world W
+  hx : W.extVersion = x
+  hkp : W.keepsPlain
+
+/-- `SimFn fuel`: running the body of an analysed, chained call under dds (with the path map of the evaluation and a
+sound store) from a plain state that holds the blobs of the (external) paths the call loads gives the value of plain
+execution, leaves a sound store, and loses no blob -/
+def SimFn (U : Universe) (m x : Nat) (W : World) (paths : List (String × Sg)) (fuel : Nat) : Prop :=
+  ∀ (fn : Fn) (ctx : ArgCtx) (env : Env) (refs : Refs) (stack : List String) (fis : FIS) (r : Refs) (st : XSt) (q : PSt),
+    U.fns fn → fn ∈ W.funs → Chain U m st.store.blobs W fn ctx env → analyse m W fuel refs stack fn ctx = .ok (fis, r) →
+    FIS.pathsOKL paths fis.subs → Sound U m x st.store → FIS.loadsOK st.store.blobs q.kept fis →
+    (∀ p ∈ fis.allLoads, External paths p) →
+    (∀ p s, External paths p → aget refs p = some s → aget st.store.paths p = some s) →
+    (runFn W paths fuel st fn env).1 = (plainFn W fuel q fn env).1 ∧ Sound U m x (runFn W paths fuel st fn env).2.store ∧
+    Extends st.store (runFn W paths fuel st fn env).2.store
+
+/-- a kept call (explicit `keep`, or a data function) of an analysed, chained callee -/
+theorem sim_keep (U : Universe) {m x : Nat} {W : World} {paths : List (String × Sg)} {fuel : Nat}
+    (hIH : SimFn U m x W paths fuel) (E : EvalCtx U x W)
+    {g : Fn} {ctx : ArgCtx} {env' : Env} {refs : Refs} {stack : List String} {fis : FIS} {rf : Refs} {xst : XSt} {path : String}
+    (hU : U.fns g) (hgW : g ∈ W.funs) (hc : Chain U m xst.store.blobs W g ctx env')
+    (ha : analyse m W fuel refs stack g ctx = .ok (fis, rf))
+    (hkey : aget paths path = some fis.retSig) (hsubs : FIS.pathsOKL paths fis.subs) (hS : Sound U m x xst.store) (q : PSt)
+    (hl : FIS.loadsOK xst.store.blobs q.kept fis) (hext : ∀ p ∈ fis.allLoads, External paths p)
+    (hrc : ∀ p s, External paths p → aget refs p = some s → aget xst.store.paths p = some s) :
+    (keepExec paths (runFn W paths fuel) xst path g env').1 = (plainFn W fuel q g env').1 ∧
+    Sound U m x (keepExec paths (runFn W paths fuel) xst path g env').2.store ∧
+    Extends xst.store (keepExec paths (runFn W paths fuel) xst path g env').2.store := by
+  unfold keepExec
+  simp only [hkey]
+  cases hb : sgGet xst.store.blobs fis.retSig with
+  | some v =>
+    simp only
+    exact ⟨(served_right hS E.hW E.hx hU hc ha hb q hl).symm, hS, Extends.refl _⟩
+  | none =>
+    simp only
+    obtain ⟨h1, h2, h3⟩ := hIH g ctx env' refs stack fis rf xst q hU hgW hc ha hsubs hS hl hext hrc
+    cases hr : runFn W paths fuel xst g env' with
+    | mk res st' =>
+      rw [hr] at h1 h2 h3
+      cases res with
+      | ok v =>
+        simp only at h1 h2 h3 ⊢
+        obtain ⟨s1, s2⟩ := Sound.storeBlob' h2 E.hW E.hx hU (hc.mono h3) ha (loadsOK_mono h3 fis hl) h1.symm
+        exact ⟨h1, s1, h3.trans s2⟩
+      | error e => exact ⟨h1, h2, h3⟩
+
+/-- any call of an analysed, chained callee made while running under dds -/
+theorem sim_call (U : Universe) {m x : Nat} {W : World} {paths : List (String × Sg)} {fuel : Nat}
+    (hIH : SimFn U m x W paths fuel) (E : EvalCtx U x W)
+    {g : Fn} {ctx : ArgCtx} {env' : Env} {refs : Refs} {stack : List String} {fis : FIS} {rf : Refs} {xst : XSt}
+    (hU : U.fns g) (hgW : g ∈ W.funs) (hc : Chain U m xst.store.blobs W g ctx env')
+    (ha : analyse m W fuel refs stack g ctx = .ok (fis, rf))
+    (kp : Option String)
+    (hkey : ∀ path, (kp = some path ∨ (kp = none ∧ g.storePath = some path)) → aget paths path = some fis.retSig)
+    (hsubs : FIS.pathsOKL paths fis.subs) (hS : Sound U m x xst.store) (q : PSt)
+    (hl : FIS.loadsOK xst.store.blobs q.kept fis) (hext : ∀ p ∈ fis.allLoads, External paths p)
+    (hrc : ∀ p s, External paths p → aget refs p = some s → aget xst.store.paths p = some s) :
+    (match kp with
+      | some path => keepExec paths (runFn W paths fuel) xst path g env'
+      | none => callExec paths (runFn W paths fuel) xst g env').1 = (plainFn W fuel q g env').1 ∧
+    Sound U m x (match kp with
+      | some path => keepExec paths (runFn W paths fuel) xst path g env'
+      | none => callExec paths (runFn W paths fuel) xst g env').2.store ∧
+    Extends xst.store (match kp with
+      | some path => keepExec paths (runFn W paths fuel) xst path g env'
+      | none => callExec paths (runFn W paths fuel) xst g env').2.store := by
+  cases kp with
+  | some path => exact sim_keep U hIH E hU hgW hc ha (hkey path (Or.inl rfl)) hsubs hS q hl hext hrc
+  | none =>
+    simp only [callExec]
+    cases hp : g.storePath with
+    | some path => exact sim_keep U hIH E hU hgW hc ha (hkey path (Or.inr ⟨rfl, hp⟩)) hsubs hS q hl hext hrc
+    | none => exact hIH g ctx env' refs stack fis rf xst q hU hgW hc ha hsubs hS hl hext hrc
+
+/-- the body of an analysed, chained call that is being run: the whole body has been analysed (`sfin`), the plain state `q0` the
+body is run from holds, at every (external) path loaded in the body or below, the blob of the signature it resolved to -/
+structure BodyCtx (U : Universe) (m x : Nat) (W : World) (paths : List (String × Sg)) (fuel : Nat) (fn : Fn) (cctx : ArgCtx)
+    (env : Env) (ev : List (String × Sg)) (io : Option Sg) (stack : List String) (refs : Refs) (Ω0 : Blobs) (q0 : PSt)
+    (sfin : VisitSt) (deps : List (String × Sg)) : Prop where
+  E : EvalCtx U x W
+  hU : U.fns fn
+  hfW : fn ∈ W.funs
+  hch : Chain U m Ω0 W fn cctx env
+  hev : hashVars m fn.vars = .ok ev
+  hio : buildReturnSig none cctx [] [] fn.exts ev = .ok io
+  hvisit : visitItems m W (analyse m W fuel) fn (io.getD (hJoin [])) stack { refs := refs } fn.items = .ok sfin
+  hdeps : lookupRefs sfin.refs (dedupStr sfin.loads) = .ok deps
+  hok : FIS.pathsOKL paths sfin.inters
+  hlsubs : FIS.loadsOKL Ω0 q0.kept sfin.inters
+  hlown : ∀ ps ∈ deps, ∃ v, sgGet Ω0 ps.2 = some v ∧ aget q0.kept ps.1 = some v
+  hextL : ∀ p ∈ sfin.loads, External paths p
+  hextT : ∀ p ∈ FIS.allLoadsL sfin.inters, External paths p
+
+theorem callee_consts {it : Item} {f : String} {args : List AstArg} {kwargs : List (String × AstArg)}
+    {rtA : List (Option RtExpr)} {rtK : List (String × Option RtExpr)} (h : it.callee = some (f, args, kwargs, rtA, rtK)) :
+    (∀ v, AstArg.const v ∈ args → it.hasConst v) ∧ (∀ n v, (n, AstArg.const v) ∈ kwargs → it.hasConst v) := by
+  cases it with
+  | call g l => simp only [Item.callee, Option.some.injEq, Prod.mk.injEq] at h; obtain ⟨_, rfl, rfl, _⟩ := h; simp
+  | ref g l => simp only [Item.callee, Option.some.injEq, Prod.mk.injEq] at h; obtain ⟨_, rfl, rfl, _⟩ := h; simp
+  | callArgs g a k ra rk l =>
+    simp only [Item.callee, Option.some.injEq, Prod.mk.injEq] at h
+    obtain ⟨_, rfl, rfl, _⟩ := h
+    exact ⟨fun v hv => Or.inl hv, fun n v hv => Or.inr ⟨n, hv⟩⟩
+  | keep pth g a k ra rk l =>
+    simp only [Item.callee, Option.some.injEq, Prod.mk.injEq] at h
+    obtain ⟨_, rfl, rfl, _⟩ := h
+    exact ⟨fun v hv => Or.inl hv, fun n v hv => Or.inr ⟨n, hv⟩⟩
+  | load pth l => simp [Item.callee] at h
+  | evalCall g l => simp [Item.callee] at h
+
+theorem visitItems_append_inv {m : Nat} {W : World} {rec : Analyse} {fn : Fn} {isig : Sg} {stack : List String} :
+    ∀ {pre its : List Item} {s0 sfin : VisitSt}, visitItems m W rec fn isig stack s0 (pre ++ its) = .ok sfin →
+    ∃ s, visitItems m W rec fn isig stack s0 pre = .ok s ∧ visitItems m W rec fn isig stack s its = .ok sfin
+  | [], its, s0, sfin, h => ⟨s0, rfl, h⟩
+  | a :: pre, its, s0, sfin, h => by
+    obtain ⟨t, h1, h2⟩ := visitItems_cons_inv (by simpa using h)
+    obtain ⟨s, h3, h4⟩ := visitItems_append_inv h2
+    exact ⟨s, by simp only [visitItems, h1, ok_bind]; exact h3, h4⟩
+
+/-- the chain of a call made from the body of a chained call -/
+theorem sub_chain {U : Universe} {m x : Nat} {W : World} {paths : List (String × Sg)} {fuel : Nat} {fn : Fn} {cctx : ArgCtx}
+    {env : Env} {ev : List (String × Sg)} {io : Option Sg} {stack : List String} {refs : Refs} {Ω0 : Blobs} {q0 : PSt}
+    {sfin : VisitSt} {deps : List (String × Sg)}
+    (B : BodyCtx U m x W paths fuel fn cctx env ev io stack refs Ω0 q0 sfin deps)
+    {Ω : Blobs} (he : ∀ k v, sgGet Ω0 k = some v → sgGet Ω k = some v)
+    {pre post : List Item} {it : Item} {s : VisitSt} {results : List RVal}
+    (hitems : fn.items = pre ++ it :: post)
+    (hvis : visitItems m W (analyse m W fuel) fn (io.getD (hJoin [])) stack { refs := refs } pre = .ok s)
+    (hsuf : visitItems m W (analyse m W fuel) fn (io.getD (hJoin [])) stack s (it :: post) = .ok sfin)
+    (hres : (plainItems W (plainFn W fuel) env q0 [] pre).1 = .ok results)
+    {f : String} {args : List AstArg} {kwargs : List (String × AstArg)} {rtA : List (Option RtExpr)}
+    {rtK : List (String × Option RtExpr)} (hcallee : it.callee = some (f, args, kwargs, rtA, rtK))
+    {g : Fn} {c : Option Sg} {named : List (String × Option Sg)} {fis : FIS} {rf : Refs}
+    (hstep : CallStep m W (analyse m W fuel) fn (io.getD (hJoin [])) stack s f args kwargs it.line g c named fis rf)
+    {env' : Env} (hbind : bindRun g.params (zipArgs results env args rtA) (zipKw results env kwargs rtK) 0 = some env') :
+    Chain U m Ω W g ⟨named, c⟩ env' := by
+  have hmem : it ∈ fn.items := by rw [hitems]; simp
+  have hUg := U.find B.E.hW hstep.find
+  cases hall : allSome named with
+  | some kvs =>
+    obtain ⟨hc1, hc2⟩ := callee_consts hcallee
+    obtain ⟨vals, r1, r2, r3, r4⟩ := const_case U results env rtA rtK
+      (fun v hv => U.constsIn fn B.hU it hmem v (hc1 v hv)) (fun n v hv => U.constsIn fn B.hU it hmem v (hc2 n v hv))
+      g.params 0 named kvs env' (U.defaultsIn g hUg) hstep.hnamed hall hbind
+    rw [r1, r2]
+    exact Chain.const W g c vals r3 r4
+  | none =>
+    obtain ⟨bh, _, hc⟩ := siteCtx_inv hstep.site
+    obtain ⟨k, hk⟩ := contextSig_isSome bh (io.getD (hJoin []))
+      (hashCommut (fisSigList (s.inters.map FIS.retSig) ++ loadsSigList s.refs (dedupStr s.loads)))
+    rw [hk] at hc
+    subst hc
+    -- the calls analysed so far are a prefix of those of the whole body
+    obtain ⟨d, hd⟩ := visitItems_grows hsuf
+    have hlo : FIS.loadsOKL Ω q0.kept s.inters := by
+      have := B.hlsubs
+      rw [hd] at this
+      exact loadsOKL_mono he _ (loadsOKL_prefix _ _ this)
+    -- the paths loaded so far resolve as they do at the end of the body (they are external)
+    have hlown : ∀ path ∈ s.loads, ∃ sg v, aget s.refs path = some sg ∧ sgGet Ω sg = some v ∧ aget q0.kept path = some v := by
+      intro path hp
+      obtain ⟨dl, hdl⟩ := visitItems_loads_grow hsuf
+      have hpf : path ∈ sfin.loads := by rw [hdl]; exact mem_append_left _ hp
+      obtain ⟨sg, h1, h2⟩ := lookupRefs_mem B.hdeps path ((mem_dedupStr path _).mpr hpf)
+      obtain ⟨v, h3, h4⟩ := B.hlown _ h2
+      have hfr := visitItems_refs_frame (aframe m W paths B.E.hkp fuel) B.E.hkp fn B.hfW _ stack (it :: post)
+        (fun y hy => by rw [hitems]; exact mem_append_right _ hy) s sfin hsuf B.hok path (B.hextL path hpf)
+      exact ⟨sg, v, by rw [← hfr]; exact h1, he _ _ h3, h4⟩
+    exact Chain.site W fn cctx env fuel stack refs pre it post s results q0 f args kwargs rtA rtK g k named fis rf env' ev io
+      (B.hch.mono he) B.E.hW B.hU hitems B.hev B.hio hvis hres hlo hlown hcallee hstep hall hbind
+
+theorem callRes_fst (W : World) (rec : PlainRec) (q : PSt) (f : String) (pos : List RVal) (kw : List (String × RVal))
+    (kp : Option String) (df : Bool) {g : Fn} (hf : W.find f = some g) {env' : Env} (hb : bindRun g.params pos kw 0 = some env') :
+    (callRes W rec q f pos kw kp df).1 = (rec q g env').1 := by
+  simp only [callRes, hf, hb]
+  cases rec q g env' with
+  | mk r st' => cases r <;> rfl
+
+/-- the functions already referenced by name in this body: analysed, chained, their interaction tree part of the body's -/
+def SeenOK (U : Universe) (m : Nat) (W : World) (paths : List (String × Sg)) (fuel : Nat) (Ω : Blobs) (refsE : Refs)
+    (sfin : VisitSt) (seen : List String) : Prop :=
+  ∀ f ∈ seen, ∃ (g : Fn) (ctx : ArgCtx) (fis : FIS) (rf refs0 : Refs) (stack0 : List String),
+    W.find f = some g ∧ analyse m W fuel refs0 stack0 g ctx = .ok (fis, rf) ∧
+    (∀ env', bindRun g.params [] [] 0 = some env' → Chain U m Ω W g ctx env') ∧ fis ∈ sfin.inters ∧
+    (∀ p, External paths p → aget refs0 p = aget refsE p)
+
+theorem SeenOK.mono {U : Universe} {m : Nat} {W : World} {paths : List (String × Sg)} {fuel : Nat} {Ω Ω' : Blobs} {refsE : Refs}
+    {sfin : VisitSt} {seen : List String}
+    (h : SeenOK U m W paths fuel Ω refsE sfin seen) (he : ∀ k v, sgGet Ω k = some v → sgGet Ω' k = some v) :
+    SeenOK U m W paths fuel Ω' refsE sfin seen := by
+  intro f hf
+  obtain ⟨g, ctx, fis, rf, refs0, stack0, h1, h2, h3, h4, h5⟩ := h f hf
+  exact ⟨g, ctx, fis, rf, refs0, stack0, h1, h2, fun env' hb => (h3 env' hb).mono he, h4, h5⟩
+
+/-- a call made from the body, whose analysed tree `fis` (recorded as `nd` in the body's tree) is known -/
+theorem sim_node {U : Universe} {m x : Nat} {W : World} {paths : List (String × Sg)} {fuel : Nat}
+    (hIH : SimFn U m x W paths fuel) {fn : Fn} {cctx : ArgCtx}
+    {env : Env} {ev : List (String × Sg)} {io : Option Sg} {stack : List String} {refs : Refs} {Ω0 : Blobs} {q0 : PSt}
+    {sfin : VisitSt} {deps : List (String × Sg)}
+    (B : BodyCtx U m x W paths fuel fn cctx env ev io stack refs Ω0 q0 sfin deps)
+    {xst : XSt} {q : PSt} (hS : Sound U m x xst.store) (he : ∀ k v, sgGet Ω0 k = some v → sgGet xst.store.blobs k = some v)
+    (hkf : KFrame paths q0 q)
+    {f : String} {g : Fn} {ctx : ArgCtx} {fis nd : FIS} {rf refs0 : Refs} {stack0 : List String}
+    (hfind : W.find f = some g) (ha : analyse m W fuel refs0 stack0 g ctx = .ok (fis, rf))
+    (hin : nd ∈ sfin.inters) (hsig : nd.retSig = fis.retSig) (hsubs : nd.subs = fis.subs) (hloads : nd.loads = fis.loads)
+    (kp : Option String) (df : Bool) (hsp : nd.storePath = (match kp with | some p => some p | none => g.storePath))
+    (pos : List RVal) (kw : List (String × RVal))
+    (hch : ∀ env', bindRun g.params pos kw 0 = some env' → Chain U m xst.store.blobs W g ctx env')
+    (hrc : ∀ p s, External paths p → aget refs0 p = some s → aget xst.store.paths p = some s) :
+    (runCall W paths (runFn W paths fuel) xst f pos kw kp).1 = (callRes W (plainFn W fuel) q f pos kw kp df).1 ∧
+    Sound U m x (runCall W paths (runFn W paths fuel) xst f pos kw kp).2.store ∧
+    Extends xst.store (runCall W paths (runFn W paths fuel) xst f pos kw kp).2.store ∧
+    KFrame paths q (callRes W (plainFn W fuel) q f pos kw kp df).2 := by
+  obtain ⟨k1, k2⟩ := (pathsOK_iff paths nd).mp (pathsOKL_mem B.hok hin)
+  rw [hsig] at k1; rw [hsubs] at k2
+  have hkey : ∀ path, (kp = some path ∨ (kp = none ∧ g.storePath = some path)) → aget paths path = some fis.retSig := by
+    intro path hp
+    apply k1 path
+    rw [hsp]
+    rcases hp with rfl | ⟨rfl, hp⟩
+    · rfl
+    · exact hp
+  -- the frame of the plain side
+  have hfr : KFrame paths q (callRes W (plainFn W fuel) q f pos kw kp df).2 := by
+    refine callRes_frame (pframe m W paths fuel) hfind ha k2 kp df (fun path hp => ?_) q pos kw
+    have : aget paths path = some fis.retSig := by
+      rcases hp with h | ⟨h1, _, h3⟩
+      · exact hkey path (Or.inl h)
+      · exact hkey path (Or.inr ⟨h1, h3⟩)
+    rw [this]; simp
+  cases hb : bindRun g.params pos kw 0 with
+  | none =>
+    refine ⟨?_, ?_, ?_, hfr⟩
+    · simp only [runCall, callRes, hfind, hb]
+    · simp only [runCall, hfind, hb]; exact hS
+    · simp only [runCall, hfind, hb]; exact Extends.refl _
+  | some env' =>
+    -- the loads of the callee's tree: external, and the current plain state holds their blobs
+    have hall : nd.allLoads = fis.allLoads := by
+      obtain ⟨n1, s1, p1, subs1, l1⟩ := nd
+      obtain ⟨n2, s2, p2, subs2, l2⟩ := fis
+      simp only [FIS.subs, FIS.loads] at hsubs hloads
+      simp only [FIS.allLoads, hsubs, hloads]
+    have hext : ∀ p ∈ fis.allLoads, External paths p := fun p hp => B.hextT p (allLoadsL_mem hin (hall ▸ hp))
+    have hl0 : FIS.loadsOK Ω0 q0.kept fis := by
+      have := loadsOKL_mem B.hlsubs hin
+      rw [loadsOK_iff] at this ⊢
+      rw [← hsubs, ← hloads]; exact this
+    have hl : FIS.loadsOK xst.store.blobs q.kept fis :=
+      loadsOK_transfer fis (fun p hp => hkf p (hext p hp)) (loadsOK_mono he fis hl0)
+    have hs := sim_call U hIH B.E (U.find B.E.hW hfind) (List.mem_of_find?_eq_some hfind) (hch env' hb) ha kp hkey k2 hS q hl hext hrc
+    refine ⟨?_, ?_, ?_, hfr⟩
+    · rw [callRes_fst W _ q f pos kw kp df hfind hb]
+      simp only [runCall, hfind, hb]; exact hs.1
+    · simp only [runCall, hfind, hb]; exact hs.2.1
+    · simp only [runCall, hfind, hb]; exact hs.2.2
+
+theorem runItemRes_paths (W : World) (rq : List (String × Sg)) (fuel : Nat) (env : Env) (st : XSt) (results : List RVal) (it : Item) :
+    (runItemRes W rq (runFn W rq fuel) env st results it).2.store.paths = st.store.paths := by
+  have hrec := runFn_paths W rq fuel
+  have call : ∀ f pos kw kp, (runCall W rq (runFn W rq fuel) st f pos kw kp).2.store.paths = st.store.paths := by
+    intro f pos kw kp
+    simp only [runCall]
+    cases W.find f with
+    | none => rfl
+    | some g =>
+      simp only
+      cases bindRun g.params pos kw 0 with
+      | none => rfl
+      | some env' =>
+        simp only
+        cases kp with
+        | some path => exact keepExec_paths rq _ hrec st path g env'
+        | none => exact callExec_paths rq _ hrec st g env'
+  cases it with
+  | call f l => exact call f _ _ _
+  | ref f l => exact call f _ _ _
+  | callArgs f a k ra rk l => exact call f _ _ _
+  | keep path f a k ra rk l => exact call f _ _ _
+  | load path l => simp only [runItemRes]; split <;> rfl
+  | evalCall f l => rfl
+
+theorem pathsOKL_prefix {paths : List (String × Sg)} : ∀ (a b : List FIS), FIS.pathsOKL paths (a ++ b) → FIS.pathsOKL paths a
+  | [], _, _ => trivial
+  | x :: a, b, h => by
+    simp only [cons_append, FIS.pathsOKL] at h ⊢
+    exact ⟨h.1, pathsOKL_prefix a b h.2⟩
+
+/-- **running the items of a body under dds = running them plainly** -/
+theorem sim_items {U : Universe} {m x : Nat} {W : World} {paths : List (String × Sg)} {fuel : Nat}
+    (hIH : SimFn U m x W paths fuel) {fn : Fn} {cctx : ArgCtx}
+    {env : Env} {ev : List (String × Sg)} {io : Option Sg} {stack : List String} {refs : Refs} {Ω0 : Blobs} {q0 : PSt}
+    {sfin : VisitSt} {deps : List (String × Sg)}
+    (B : BodyCtx U m x W paths fuel fn cctx env ev io stack refs Ω0 q0 sfin deps) :
+    ∀ (its pre : List Item) (s : VisitSt) (results : List RVal) (q : PSt) (xst : XSt),
+      fn.items = pre ++ its →
+      visitItems m W (analyse m W fuel) fn (io.getD (hJoin [])) stack { refs := refs } pre = .ok s →
+      plainItems W (plainFn W fuel) env q0 [] pre = (.ok results, q) →
+      visitItems m W (analyse m W fuel) fn (io.getD (hJoin [])) stack s its = .ok sfin →
+      SeenOK U m W paths fuel xst.store.blobs refs sfin s.seen → Sound U m x xst.store →
+      (∀ k v, sgGet Ω0 k = some v → sgGet xst.store.blobs k = some v) → KFrame paths q0 q →
+      (∀ p sg, External paths p → aget refs p = some sg → aget xst.store.paths p = some sg) →
+      (runItems W (some paths) (runFn W paths fuel) fn env xst results its).1 =
+        (plainItems W (plainFn W fuel) env q results its).1 ∧
+      Sound U m x (runItems W (some paths) (runFn W paths fuel) fn env xst results its).2.store ∧
+      Extends xst.store (runItems W (some paths) (runFn W paths fuel) fn env xst results its).2.store
+  | [], _, _, _, _, xst, _, _, _, _, _, hS, _, _, _ => ⟨rfl, hS, Extends.refl _⟩
+  | it :: its, pre, s, results, q, xst, hitems, hvis, hplain, hrest, hseen, hS, he, hkf, hrc => by
+    obtain ⟨t, hv, hr⟩ := visitItems_cons_inv hrest
+    rw [runItems_cons, plainItems_cons]
+    have hmem : it ∈ fn.items := by rw [hitems]; simp
+    have hres : (plainItems W (plainFn W fuel) env q0 [] pre).1 = .ok results := by rw [hplain]
+    -- what the external paths resolve to has not changed since the entry of the body
+    have hsr : ∀ p, External paths p → aget s.refs p = aget refs p := by
+      intro p hp
+      obtain ⟨d, hd⟩ := visitItems_grows hrest
+      have hokS : FIS.pathsOKL paths s.inters := by
+        have := B.hok; rw [hd] at this; exact pathsOKL_prefix _ _ this
+      exact visitItems_refs_frame (aframe m W paths B.E.hkp fuel) B.E.hkp fn B.hfW _ stack pre
+        (fun y hy => by rw [hitems]; exact mem_append_left _ hy) _ s hvis hokS p hp
+    have hrcS : ∀ p sg, External paths p → aget s.refs p = some sg → aget xst.store.paths p = some sg :=
+      fun p sg hp h => hrc p sg hp (by rw [← hsr p hp]; exact h)
+    have claim : (runItemRes W paths (runFn W paths fuel) env xst results it).1 =
+          (plainItemRes W (plainFn W fuel) env q results it).1 ∧
+        Sound U m x (runItemRes W paths (runFn W paths fuel) env xst results it).2.store ∧
+        Extends xst.store (runItemRes W paths (runFn W paths fuel) env xst results it).2.store ∧
+        KFrame paths q (plainItemRes W (plainFn W fuel) env q results it).2 ∧
+        SeenOK U m W paths fuel xst.store.blobs refs sfin t.seen := by
+      cases it with
+      | call f l =>
+        obtain ⟨g, c, named, fis, rf, hstep, e⟩ := plain_inv (by simpa [visitItem] using hv)
+        have hin : fis ∈ sfin.inters := mem_final_inters hr (by rw [e]; simp)
+        have := sim_node hIH B hS he hkf hstep.find hstep.sub hin rfl rfl rfl none true (analyse_storePath hstep.sub) [] []
+          (fun env' hb => sub_chain B he hitems hvis hrest hres (it := .call f l) rfl hstep hb) hrcS
+        rw [plainItemRes_call']
+        exact ⟨this.1, this.2.1, this.2.2.1, this.2.2.2, by rw [e]; exact hseen⟩
+      | callArgs f args kwargs rtA rtK l =>
+        obtain ⟨g, c, named, fis, rf, hstep, e⟩ := plain_inv (by simpa [visitItem] using hv)
+        have hin : fis ∈ sfin.inters := mem_final_inters hr (by rw [e]; simp)
+        have := sim_node hIH B hS he hkf hstep.find hstep.sub hin rfl rfl rfl none false (analyse_storePath hstep.sub)
+          (zipArgs results env args rtA) (zipKw results env kwargs rtK)
+          (fun env' hb => sub_chain B he hitems hvis hrest hres (it := .callArgs f args kwargs rtA rtK l) rfl hstep hb) hrcS
+        rw [plainItemRes_callArgs']
+        exact ⟨this.1, this.2.1, this.2.2.1, this.2.2.2, by rw [e]; exact hseen⟩
+      | keep path f args kwargs rtA rtK l =>
+        obtain ⟨g, c, named, fis, rf, hstep, _, e⟩ := keep_inv hv
+        have hin : fis.withPath path ∈ sfin.inters := mem_final_inters hr (by rw [e]; simp)
+        have := sim_node hIH B hS he hkf hstep.find hstep.sub hin rfl rfl rfl (some path) false rfl
+          (zipArgs results env args rtA) (zipKw results env kwargs rtK)
+          (fun env' hb => sub_chain B he hitems hvis hrest hres (it := .keep path f args kwargs rtA rtK l) rfl hstep hb) hrcS
+        rw [plainItemRes_keep']
+        exact ⟨this.1, this.2.1, this.2.2.1, this.2.2.2, by rw [e]; exact hseen⟩
+      | ref f l =>
+        rw [plainItemRes_ref']
+        rcases ref_inv hv with ⟨hin, e⟩ | ⟨hnot, g, c, named, fis, rf, hstep, e⟩
+        · obtain ⟨g, ctx, fis, rf, refs0, stack0, hfind, ha, hch, hfin, hr0⟩ := hseen f hin
+          have := sim_node hIH B hS he hkf hfind ha hfin rfl rfl rfl none true (analyse_storePath ha) [] [] hch
+            (fun p sg hp h => hrc p sg hp (by rw [← hr0 p hp]; exact h))
+          exact ⟨this.1, this.2.1, this.2.2.1, this.2.2.2, by rw [e]; exact hseen⟩
+        · have hin : fis ∈ sfin.inters := mem_final_inters hr (by rw [e]; simp)
+          have hch : ∀ env', bindRun g.params [] [] 0 = some env' → Chain U m xst.store.blobs W g ⟨named, c⟩ env' :=
+            fun env' hb => sub_chain B he hitems hvis hrest hres (it := .ref f l) rfl hstep hb
+          have := sim_node hIH B hS he hkf hstep.find hstep.sub hin rfl rfl rfl none true (analyse_storePath hstep.sub) [] [] hch hrcS
+          refine ⟨this.1, this.2.1, this.2.2.1, this.2.2.2, ?_⟩
+          rw [e]
+          intro f' hf'
+          rcases mem_cons.mp hf' with rfl | hf'
+          · exact ⟨g, ⟨named, c⟩, fis, rf, s.refs, stack ++ [f'], hstep.find, hstep.sub, hch, hin, hsr⟩
+          · exact hseen f' hf'
+      | load path l =>
+        have e := load_inv hv
+        -- the path is external and is loaded by the body: the store has committed it to a key, and the plain state holds
+        -- the blob under that key
+        obtain ⟨dl, hdl⟩ := visitItems_loads_grow hr
+        have hpf : path ∈ sfin.loads := by rw [hdl, e]; simp
+        have hpe := B.hextL path hpf
+        obtain ⟨sg, h1, h2⟩ := lookupRefs_mem B.hdeps path ((mem_dedupStr path _).mpr hpf)
+        obtain ⟨v, h3, h4⟩ := B.hlown _ h2
+        have hq : aget q.kept path = some v := by rw [hkf path hpe]; exact h4
+        have hfin : aget sfin.refs path = aget refs path :=
+          visitItems_refs_frame (aframe m W paths B.E.hkp fuel) B.E.hkp fn B.hfW _ stack fn.items (fun _ h => h) _ sfin B.hvisit
+            B.hok path hpe
+        have hcom : aget xst.store.paths path = some sg := hrc path sg hpe (by rw [← hfin]; exact h1)
+        have hpn : aget paths path = none := hpe
+        refine ⟨?_, ?_, ?_, ?_, by rw [e]; exact hseen⟩
+        · simp only [plainItemRes, runItemRes, hq, hpn, hcom, Option.orElse, he sg v h3, Option.getD_some]
+        · simp only [runItemRes]; split <;> exact hS
+        · simp only [runItemRes]; split <;> exact Extends.refl _
+        · simp only [plainItemRes, hq]; exact KFrame.refl _ _
+      | evalCall f l => exact absurd (by simp [Item.isEval]) (U.noEval fn B.hU _ hmem)
+    obtain ⟨c1, c2, c3, c4, c5⟩ := claim
+    have hpaths := runItemRes_paths W paths fuel env xst results it
+    cases hR : runItemRes W paths (runFn W paths fuel) env xst results it with
+    | mk rv xst' =>
+      cases hP : plainItemRes W (plainFn W fuel) env q results it with
+      | mk pv q' =>
+        rw [hR, hP] at c1
+        rw [hR] at c2 c3 hpaths
+        rw [hP] at c4
+        simp only at c1 c2 c3 c4 hpaths
+        subst c1
+        cases rv with
+        | error e => exact ⟨rfl, c2, c3⟩
+        | ok v =>
+          simp only
+          obtain ⟨i1, i2, i3⟩ := sim_items hIH B its (pre ++ [it]) t (results ++ [v]) q' xst'
+            (by rw [hitems]; simp) (visitItems_snoc hvis hv) (plainItems_snoc W _ env pre q0 q q' [] results it v hplain hP)
+            hr (c5.mono c3) c2 (fun k w h => c3 k w (he k w h)) (hkf.trans c4) (by rw [hpaths]; exact hrc)
+          exact ⟨i1, i2, c3.trans i3⟩
+
+theorem runFn_succ (W : World) (paths : List (String × Sg)) (fuel : Nat) (st : XSt) (fn : Fn) (env : Env) :
+    (runFn W paths (fuel + 1) st fn env).1 =
+      bodyOutcome W fn env (runItems W (some paths) (runFn W paths fuel) fn env { st with log := st.log ++ [fn.name] } [] fn.items).1 ∧
+    (runFn W paths (fuel + 1) st fn env).2.store =
+      (runItems W (some paths) (runFn W paths fuel) fn env { st with log := st.log ++ [fn.name] } [] fn.items).2.store := by
+  simp only [runFn]
+  generalize runItems W (some paths) (runFn W paths fuel) fn env { st with log := st.log ++ [fn.name] } [] fn.items = r
+  obtain ⟨v, q⟩ := r
+  cases v with
+  | error e => exact ⟨rfl, rfl⟩
+  | ok results =>
+    simp only [bodyOutcome]
+    cases fn.fails <;> exact ⟨rfl, rfl⟩
+
+/-- **Simulation theorem**: for every nesting depth, the body of an analysed, chained call run under dds against a
+sound store returns the plain value, leaves a sound store and loses no blob -/
+theorem sim_fn (U : Universe) (m x : Nat) (W : World) (paths : List (String × Sg)) (E : EvalCtx U x W) :
+    ∀ fuel, SimFn U m x W paths fuel
+  | 0 => by
+    intro fn ctx env refs stack fis r st q _ _ _ ha
+    exact absurd ha analyse_zero
+  | k + 1 => by
+    intro fn ctx env refs stack fis r st q hU hfW hch ha hsubs hS hl hext hrc
+    obtain ⟨ev, io, sv, b, d, ret, a⟩ := analyse_inv ha
+    have hsub : fis.subs = sv.inters := by rw [a.hfis]; rfl
+    have hlo : fis.loads = d := by rw [a.hfis]; rfl
+    have hall : fis.allLoads = d.map Prod.fst ++ FIS.allLoadsL sv.inters := by rw [a.hfis]; rfl
+    obtain ⟨l1, l2⟩ := (loadsOK_iff _ _ _).mp hl
+    rw [hlo] at l1; rw [hsub] at l2
+    have B : BodyCtx U m x W paths k fn ctx env ev io stack refs st.store.blobs { q with log := q.log ++ [fn.name] } sv d :=
+      { E := E, hU := hU, hfW := hfW, hch := hch, hev := a.hvars, hio := a.hinput, hvisit := a.hvisit, hdeps := a.hdeps,
+        hok := by rw [← hsub]; exact hsubs, hlsubs := l2, hlown := l1,
+        hextL := fun p hp => hext p (by
+          rw [hall, lookupRefs_fst a.hdeps]; exact mem_append_left _ ((mem_dedupStr p _).mpr hp)),
+        hextT := fun p hp => hext p (by rw [hall]; exact mem_append_right _ hp) }
+    obtain ⟨r1, r2⟩ := runFn_succ W paths k st fn env
+    obtain ⟨i1, i2, i3⟩ := sim_items (sim_fn U m x W paths E k) B fn.items [] _ [] { q with log := q.log ++ [fn.name] }
+      { st with log := st.log ++ [fn.name] } rfl rfl rfl a.hvisit (fun f hf => absurd hf (by simp)) hS (fun _ _ h => h)
+      (KFrame.refl _ _) hrc
+    rw [r1, r2, plainFn_succ_fst, i1]
+    exact ⟨rfl, i2, i3⟩
 
 end Dds
